@@ -475,7 +475,9 @@ class Segment:
         self.held.append((k, conc, flx, arr_digest(conc), arr_digest(flx)))
         del self.held[:-6]
         self.results.append((k, i, threads, conc.copy(), flx.copy(), [np.asarray(g).copy() for g in grid]))
-        self.events.append([k, "solve", i, threads, arr_digest(conc), arr_digest(flx)])
+        # no array digests in the event log: across processes C12 itself only
+        # promises equality to rounding, so the run digest must not demand more
+        self.events.append([k, "solve", i, threads, str(conc.dtype), list(conc.shape)])
 
     def run(self, refs, valid_export):
         import numba
